@@ -258,6 +258,31 @@ theorem C09_default_codes (req : Request) (p : Payload) (nr : Option Nat) (c : N
     simp only [resourceRender, hq, Bool.not_true, Bool.false_eq_true, ↓reduceIte, hr]
     exact ⟨_, rfl, rfl⟩
 
+/-- **C09 (the request's token).**  In every schedule every effect of a request — the final
+response in particular — is labelled with the token of the request that was delivered under that
+number. -/
+theorem C09_token (site : Option Site) (ins : List In) :
+    ∀ o ∈ (run (Sys.init site) ins).2,
+      ∃ req, firstDeliver ins o.id = some req ∧ o.token = req.token := by
+  intro o ho
+  have := run_token ins (Sys.init site) o ho
+  simpa [Sys.init] using this
+
+/-- **C09 (No-Response propagation).**  A returned message that carries a No-Response value of
+its own keeps it; one that has none gets the request's; responses built from exceptions carry
+none (they are never suppressed). -/
+theorem C09_no_response_propagation (req : Request) (r : Resource) (c : Option Nat) (p : Payload)
+    (nr : Option Nat) (hq : isRequestCode req.code = true)
+    (hr : r.lookup req.code = some (.returns c p nr)) :
+    (∃ m, resourceRender req r = .responds m ∧ m.payload = p ∧
+      m.noResponse = (nr <|> req.noResponse)) ∧
+    ∀ e, (excToMessage e).1.noResponse = none := by
+  constructor
+  · simp only [resourceRender, hq, Bool.not_true, Bool.false_eq_true, ↓reduceIte, hr]
+    refine ⟨_, rfl, rfl, ?_⟩
+    cases nr <;> rfl
+  · intro e; cases e <;> rfl
+
 /-- **C09 (isolation, one step).**  A step for request `a.id` — whatever it is: a failing
 completion, a loss of interest, a delivery — leaves the whole state of every other request `j`
 (both pipes, its registration, its pending outcome) untouched and produces no output for it. -/
@@ -292,6 +317,121 @@ theorem C09_two_states (site : Option Site) (ins : List In) (i : Nat) (e : Entry
     (e.st = .start ∧ e.finished = false) ∨ e.st = .done :=
   ((run_good (init_good site) ins) i e h).1
 
+-- composition with the message layer ---------------------------------------------------------
+
+open MsgLayer in
+/-- the message-layer view of a response the rendering side puts on the pipe: the application set
+neither a type nor an Observe option; `body` is the opaque identity of payload and options -/
+def toOutMsg (m : Resp) (body maxRetr : Nat) (reliability : Option Bool) : MsgLayer.OutMsg :=
+  { mtype := none, reliability, code := m.code, obs := none, body,
+    noResponse := m.noResponse.getD 0, maxRetr }
+
+open MsgLayer in
+/-- **C09 (composition: the final response on the wire).**  `Eff.send m true` of request `sv` is
+the message-layer event `respond sv … isLast = true`.  In every message-layer state in which the
+request is still in the table:
+* when No-Response suppresses the response, **no datagram with a response code** leaves (at most
+  the bare ACK that uses up the piggy-back opportunity of a CON request);
+* otherwise the response leaves as **exactly one** message carrying the request's token, to the
+  request's remote, with `m`'s code and body — on the wire at once, or queued behind the exchange
+  in flight to that remote (NSTART = 1, C14) from where it is sent unchanged;
+* afterwards the request is gone from the table, so that anything put on the pipe later is
+  discarded without any output. -/
+theorem C09_compose_final (s : State) (sv : Nat) (i : InReq) (m : Resp) (body maxRetr : Nat)
+    (rel : Option Bool) (hi : s.incoming.find? (fun x => x.srv == sv) = some i) :
+    let om := toOutMsg m body maxRetr rel
+    let r := respond s sv om true
+    (suppressed om = true → r.2 = [] ∨ ∃ mid, r.2 = [.send s.now i.remote (emptyAck mid)]) ∧
+    (suppressed om = false →
+      ∃ w, (w.code = m.code ∧ w.token = i.token ∧ w.body = body ∧ w.obs = none) ∧
+        (r.2 = [.send s.now i.remote w] ∨
+         (r.2 = [] ∧ ∃ b ∈ r.1.backlogs, b.1 = i.remote ∧ ∃ qd ∈ b.2, qd.msg = w))) ∧
+    (∀ m' l, respond r.1 sv m' l = (r.1, [])) := by
+  intro om r
+  have hr : r = (dropIncoming (sendMessage s i.remote false i.token om i.wasNon (.srv sv)).1 sv,
+                 (sendMessage s i.remote false i.token om i.wasNon (.srv sv)).2.1) := by
+    simp [r, respond, hi]
+  have hout := sendMessage_response_out s i.remote i.token om i.wasNon (.srv sv)
+  refine ⟨?_, ?_, ?_⟩
+  · intro hs; rw [hr]; exact hout.1 hs
+  · intro hs
+    obtain ⟨w, hc, hw⟩ := hout.2 hs
+    refine ⟨w, hc, ?_⟩
+    rw [hr]
+    rcases hw with hw | ⟨hw, hb⟩
+    · exact Or.inl hw
+    · exact Or.inr ⟨hw, hb⟩
+  · intro m' l
+    have : r.1.incoming.find? (fun x => x.srv == sv) = none := by
+      rw [hr]; exact find_dropIncoming _ sv
+    simp [respond, this]
+
+open MsgLayer in
+/-- **C09 (composition: delivery).**  `process_request` of the message layer hands a request to
+the rendering side under the next free number and enters it in the table with the token and
+remote of the datagram; so the final response of `C09_compose_final` carries the token of the
+datagram that caused the request (in every reachable message-layer state — `SrvFresh` is an
+invariant, `run_SrvFresh`). -/
+theorem C09_compose_deliver (s : State) (remote : Remote) (w : Wire) (hf : SrvFresh s) :
+    let r := tokenProcessRequest s remote w
+    (∃ pre, r.2 = pre ++ [.deliver s.nextSrv remote w]) ∧
+    r.1.incoming.find? (fun x => x.srv == s.nextSrv) =
+      some { token := w.token, remote, srv := s.nextSrv, wasNon := w.mtype == .non } ∧
+    SrvFresh r.1 := by
+  intro r
+  refine ⟨?_, ?_, tokenProcessRequest_SrvFresh hf remote w⟩
+  · simp only [r, tokenProcessRequest]
+    split <;> exact ⟨_, rfl⟩
+  · have hnot : ∀ (l : List InReq), (∀ x ∈ l, x.srv < s.nextSrv) →
+        (l ++ [({ token := w.token, remote, srv := s.nextSrv, wasNon := w.mtype == .non } : InReq)]).find?
+          (fun x => x.srv == s.nextSrv) =
+        some { token := w.token, remote, srv := s.nextSrv, wasNon := w.mtype == .non } := by
+      intro l hl
+      rw [List.find?_append]
+      have : l.find? (fun x => x.srv == s.nextSrv) = none := by
+        simp only [List.find?_eq_none, beq_iff_eq]
+        intro x hx; have := hl x hx; omega
+      simp [this]
+    simp only [r, tokenProcessRequest]
+    split
+    · rename_i i _
+      exact hnot _ (fun x hx => hf x ((dropIncoming_IFrame s i.srv).inc.subset hx))
+    · exact hnot _ hf
+
+open MsgLayer in
+/-- `SrvFresh` holds in every reachable state of the message-layer model -/
+theorem C09_compose_reachable (cfg : Cfg) (mid token : Nat) (f : Nat → Nat) (es : List TEv) :
+    SrvFresh (MsgLayer.run (MsgLayer.init cfg mid token f) es).1 :=
+  run_SrvFresh (init_SrvFresh cfg mid token f) es
+
+open MsgLayer in
+/-- **C09 (composition: only requests are rendered).**  The type/code table of the message
+layer hands a message to `process_request` only if its code is a request code, so
+`Resource.render`'s "not a request" branch is dead behind the UDP stack. -/
+theorem C09_compose_only_requests (s : State) (remote : Remote) (mcLocal : Bool) (w : Wire)
+    (sv : Nat) (rem : Remote) (w' : Wire)
+    (h : Out.deliver sv rem w' ∈ (recvCode s remote mcLocal w).2) :
+    isRequestCode w.code = true ∧ w' = w := by
+  unfold recvCode at h
+  split at h
+  · simp [sendBare, sendInitially] at h
+  · split at h
+    · simp at h
+    · split at h
+      · rename_i hq
+        simp only [Bool.and_eq_true] at hq
+        refine ⟨by simpa [isRequestCode, isRequest] using hq.1, ?_⟩
+        unfold processRequest tokenProcessRequest at h
+        simp only at h
+        split at h <;> simp at h <;> exact h.2.2
+      · split at h
+        · dsimp only at h
+          unfold processResponse at h
+          simp only at h
+          repeat' (split at h)
+          all_goals simp [sendBare, sendInitially] at h
+        · simp at h
+
 -- non-vacuity and sanity examples -------------------------------------------------------------
 
 def exSite : Site :=
@@ -325,5 +465,25 @@ example : expectedFinal (some exSite) (exReq 4 ["a"] 1) = none := by decide
 example : (∀ a ∈ [In.deliver 5 (exReq 1 ["a"] 1), .complete 5], a.id ≠ 0) ∧
     (∀ a ∈ [In.deliver 6 (exReq 1 ["b", "c"] 2), .complete 6, .stop 5, .deliver 0 (exReq 1 [] 9)],
       a ≠ .complete 0 ∧ a ≠ .stop 0) := by decide
+
+
+open MsgLayer in
+/-- composition on a concrete state: a CON GET is received, rendered to 2.05 and the response is
+piggy-backed on the ACK with the request's token and message id -/
+example :
+    let s1 := (MsgLayer.step (MsgLayer.init ⟨1000, 100⟩ 10 20 (fun _ => 50))
+                ⟨5, .recv 3 false ⟨.con, 1, 77, [9], none, 0⟩⟩).1
+    s1.incoming.find? (fun x => x.srv == 0) = some ⟨[9], 3, 0, false⟩ ∧
+    (MsgLayer.respond s1 0 (toOutMsg ⟨69, [1], none⟩ 42 4 none) true).2 =
+      [.send 5 3 ⟨.ack, 69, 77, [9], none, 42⟩] := by decide
+
+open MsgLayer in
+/-- … and a NON request whose No-Response value 2 suppresses the 2.xx class: 0 datagrams -/
+example :
+    let s1 := (MsgLayer.step (MsgLayer.init ⟨1000, 100⟩ 10 20 (fun _ => 50))
+                ⟨5, .recv 3 false ⟨.non, 1, 77, [9], none, 0⟩⟩).1
+    (MsgLayer.respond s1 0 (toOutMsg ⟨69, [1], some 2⟩ 42 4 none) true).2 = [] ∧
+    (MsgLayer.respond s1 0 (toOutMsg ⟨160, [], none⟩ 42 4 none) true).2 =
+      [.send 5 3 ⟨.non, 160, 10, [9], none, 42⟩] := by decide
 
 end Aiocoap.Render
